@@ -24,7 +24,7 @@ METRIC_OPS = ["derivative", "integrate", "average", "cumint"]
 
 
 # ------------------------------------------------------------ user ufuncs
-def make_stencil(weights_per_axis, nout=1):
+def make_stencil(weights_per_axis, nout=1, strict=False):
     """function applying an integer-weight stencil over the trailing len(w)
     dims; shrinks each by len(w_axis)-1.  With nout=2 it returns a pair
     (the stencil and an affine image of it)."""
@@ -40,6 +40,10 @@ def make_stencil(weights_per_axis, nout=1):
             axis = a.ndim - nd + ai
             s = len(w)
             out_len = a.shape[axis] - s + 1
+            if strict and out_len <= 0:
+                # (like np.gradient and most hand-written column functions: a column shorter than the stencil is an
+                # error - e.g. the 1-element dummy blocks dask uses when it has to guess an output dtype)
+                raise ValueError(f"stencil of {s} points applied to a column of {a.shape[axis]}")
             acc = None
             for i, wi in enumerate(w):
                 sl = [slice(None)] * a.ndim
@@ -519,6 +523,10 @@ def gen_ufunc_case(rng, gs, spec, tier):
     if nout == 2:
         spec["op"]["nout"] = 2
     if rng.random() < 0.3:
+        spec["op"]["bw_list"] = True
+    if rng.random() < 0.3:
+        spec["op"]["strict"] = True
+    if rng.random() < 0.3:
         # keyword arguments meant for the user function itself (xarray.apply_ufunc(kwargs=...))
         spec["op"]["func_kw"] = rng.choice([{"scale": 2.0}, {"shift": 3.0}, {"scale": -2.0, "shift": 1.0}])
     if inputs2 is not None and rng.random() < 0.4:
@@ -691,11 +699,12 @@ def make_case(seed_i, tier):
 
 
 # ---------------------------------------------------------------- executor
-def _jsonkw(kw):
+def _jsonkw(kw, bw_list=False):
     out = {}
     for k, v in kw.items():
         if k == "boundary_width":
-            out[k] = {a: tuple(w) for a, w in v.items()}
+            # (widths are usually spelled as tuples; lists are accepted as well)
+            out[k] = {a: (list(w) if bw_list else tuple(w)) for a, w in v.items()}
         elif k == "axis" and isinstance(v, list) and v and isinstance(v[0], list):
             out[k] = [tuple(a) for a in v]
         elif k == "to" and isinstance(v, dict):
@@ -710,7 +719,7 @@ def call_op(grid, op, da, da2=None, vector=None, eager=False):
     from xgcm.grid_ufunc import as_grid_ufunc
 
     name = op["name"]
-    kw = _jsonkw(op.get("kw", {}))
+    kw = _jsonkw(op.get("kw", {}), bw_list=bool(op.get("bw_list")))
     if eager:
         # "the same operation on the same data held in memory": the dask
         # execution options do not apply to in-memory data
@@ -718,7 +727,7 @@ def call_op(grid, op, da, da2=None, vector=None, eager=False):
         kw.pop("map_overlap", None)
     if name == "ufunc":
         weights = op["weights"]
-        func = make_stencil(weights, op.get("nout", 1))
+        func = make_stencil(weights, op.get("nout", 1), strict=bool(op.get("strict")))
         args = [da] + ([da2] if op.get("nin", 1) == 2 else [])
         if vector:
             args = [{vector["axis"]: da}]
